@@ -154,6 +154,39 @@ fn main() {
                             "msgs": pearl::verif::PROBE.msgs.load(std::sync::atomic::Ordering::SeqCst),
                             "dump_tasks": pearl::verif::PROBE.dump_tasks.load(std::sync::atomic::Ordering::SeqCst)});
         }
+        if scenario == "channel-full" {
+            // the schedule of PearlConc's deadlock (SendUnderLock = TRUE): the channel to the worker is full of
+            // requests that cannot apply while writers overflow the active blob and ask for a rotation.
+            // Required: everybody finishes, the active blob is switched, close returns.
+            drop(st);
+            let _ = std::fs::remove_dir_all(&d2);
+            std::fs::create_dir_all(&d2).map_err(|e| e.to_string())?;
+            let mut st2: Storage<ArrayKey<N>> = Builder::new().work_dir(&d2).blob_file_name_prefix("vb").max_blob_size(1 << 40).max_data_in_blob(5)
+                .allow_duplicates().build().map_err(|e| format!("{e:#}"))?;
+            st2.init().await.map_err(|e| format!("init: {e:#}"))?;
+            for i in 1..=6 { put(&st2, i).await?; }
+            tokio::time::sleep(Duration::from_millis(300)).await;     // rotation debounce
+            let before = st2.blobs_count().await;
+            let st2 = Arc::new(st2);
+            let mut hs = Vec::new();
+            for f in 0..4u64 {
+                let s = st2.clone();
+                hs.push(tokio::spawn(async move { for _ in 0..1500 { s.create_active_blob_in_background().await; } f }));
+            }
+            for w in 0..4u64 {
+                let s = st2.clone();
+                hs.push(tokio::spawn(async move { for i in 0..60u64 { let _ = s.write(&key(100 + w * 100 + i), Bytes::from(drive::payload(i, 30)), BlobRecordTimestamp::new(1)).await; if i % 20 == 19 { tokio::time::sleep(Duration::from_millis(260)).await; } } w }));
+            }
+            let all = async { for h in hs { let _ = h.await; } };
+            let finished = tokio::time::timeout(Duration::from_secs(45), all).await.is_ok();
+            let after = if finished { tokio::time::timeout(Duration::from_secs(10), st2.blobs_count()).await.unwrap_or(0) } else { 0 };
+            let close_ok = if finished {
+                match Arc::try_unwrap(st2) { Ok(s) => matches!(tokio::time::timeout(Duration::from_secs(30), s.close()).await, Ok(Ok(()))), Err(_) => false }
+            } else { false };
+            t2.log(json!({"ev": "step", "what": "channel-full done", "finished": finished, "blobs_before": before, "blobs_after": after, "t": t2.ms()}));
+            return Ok(json!({"dumped_after_idle": finished && after > before, "close_ok": close_ok,
+                             "detail": {"finished": finished, "blobs_before": before, "blobs_after": after}}));
+        }
         if scenario == "double-defer" {
             // two deferred-dump requests closer than the minimum time: the deadline of the first one
             // fires when the dump is not due yet and has to be armed again
@@ -186,8 +219,12 @@ fn main() {
     match res {
         Ok(v) => {
             if v["dumped_after_idle"] != true || v["close_ok"] != true {
-                println!("MISMATCH {}", json!({"scenario": scenario, "min_ms": min_ms, "slow_ms": slow_ms, "mismatches": [{"kind": "deferred_dump_never_ran",
-                    "expected": "the index of the closed blob is dumped again without further client action", "got": v}]}));
+                let (kind, expected) = if scenario == "channel-full" {
+                    ("maintenance_stuck", "every client finishes, the overflowed active blob is switched and close returns")
+                } else {
+                    ("deferred_dump_never_ran", "the index of the closed blob is dumped again without further client action")
+                };
+                println!("MISMATCH {}", json!({"scenario": scenario, "min_ms": min_ms, "slow_ms": slow_ms, "mismatches": [{"kind": kind, "expected": expected, "got": v}]}));
             }
             println!("RESULT {}", json!({"scenario": scenario, "result": v, "events": events.len()}));
         }
